@@ -141,3 +141,9 @@ Qed.
 
 Lemma ex_jfif : jfif_ok (mkJfif 1 2 1 300 65535).
 Proof. unfold jfif_ok, is_byte. cbn. lia. Qed.
+
+(* regression case of the lossless-Td defect: ids 1,2,3 with DC tables 0,1,1, predictor 1 *)
+Lemma ex_sos_lossless_regression :
+  get_sos [1; 2; 3] (skipn 2 (emit_sos true [1; 2; 3] (mkScan [mkScomp 0 0 0; mkScomp 1 1 1; mkScomp 2 1 1] 1 0 0 0)))
+  = Some (mkScan [mkScomp 0 0 0; mkScomp 1 1 0; mkScomp 2 1 0] 1 0 0 0, []).
+Proof. vm_compute. reflexivity. Qed.
